@@ -969,3 +969,8 @@ V("affine-leq-double-negation", "neutral", ["C01", "C02"], P + "affine_leq_propa
   "                new_min = old_domains[i, MAX] + -(-domain_sum_max // c)\n", "x - q written as x + -q")
 V("affine-geq-negated-both", "neutral", ["C01", "C02"], P + "affine_geq_propagator.py", "                new_max = old_domains[i, MIN] + (-domain_sum_min // -c)\n",
   "                nc = -c\n                new_max = old_domains[i, MIN] + (-domain_sum_min // nc)\n", "the negated coefficient held in a local")
+V("lex-strict-half-forgotten", "break", ["C08"], P + "lexicographic_leq_propagator.py", None, None,
+  "x_q < y_q: x's maximum lowered below y's, y's minimum raised only to x's (the + 1 forgotten on one half)", None, expect_rule="R-ENFORCE-ENTAIL",
+  edits=[{"old": "        y[q, MIN] = max(y[q, MIN], x[q, MIN] + 1)\n", "new": "        y[q, MIN] = max(y[q, MIN], x[q, MIN])\n", "occurrence": 0}])
+V("lex-strict-half-commuted", "neutral", ["C08", "C01", "C07"], P + "lexicographic_leq_propagator.py", None, None, "x.MIN + 1 written 1 + x.MIN",
+  edits=[{"old": "        y[q, MIN] = max(y[q, MIN], x[q, MIN] + 1)\n", "new": "        y[q, MIN] = max(y[q, MIN], 1 + x[q, MIN])\n", "occurrence": 0}])
